@@ -156,13 +156,16 @@ class RelativeSequence(AbstractSequence):
             messages_normalized.append(
                 Message(message_type=MessageType.WAIT, channel=default_channel, time=wait_buffer))
 
-        # Remove unclosed notes
+        # Remove unclosed notes. Only the first message of each list was added above. Its latest occurrence is removed,
+        # since the same message object can occur several times (e.g., after concatenating a sequence repeatedly)
         for channel in open_messages.keys():
             for key in open_messages[channel].keys():
                 note_list = open_messages[channel].get(key, [])
-                for msg in note_list:
-                    if msg in messages_normalized:
-                        messages_normalized.remove(msg)
+                if len(note_list) > 0:
+                    for index in range(len(messages_normalized) - 1, -1, -1):
+                        if messages_normalized[index] is note_list[0]:
+                            del messages_normalized[index]
+                            break
 
         self._messages = messages_normalized
 
